@@ -26,9 +26,9 @@ fn progs() -> &'static Vec<Prog> {
 }
 
 #[derive(Clone, Copy, Debug, PartialEq, Eq)]
-enum Op { StepIn, StepOver, StepOut, RunLimit(u64), Run, RunWhileR0Ne2, BpPc(bool), BpReg(bool), BpMem(bool), Arm(u64) }
-const OPS: [Op; 18] = [Op::StepIn, Op::StepOver, Op::StepOut, Op::RunLimit(0), Op::RunLimit(1), Op::RunLimit(2), Op::RunLimit(5), Op::Run, Op::RunWhileR0Ne2,
-    Op::BpPc(true), Op::BpPc(false), Op::BpReg(true), Op::BpReg(false), Op::BpMem(true), Op::BpMem(false), Op::Arm(0), Op::Arm(1), Op::Arm(3)];
+enum Op { StepIn, StepOver, StepOut, RunLimit(u64), Run, RunWhileR0Ne2, BpPc(bool), BpReg(bool), BpMem(bool), Arm(u64), SetCount(u64) }
+const OPS: [Op; 21] = [Op::StepIn, Op::StepOver, Op::StepOut, Op::RunLimit(0), Op::RunLimit(1), Op::RunLimit(2), Op::RunLimit(5), Op::Run, Op::RunWhileR0Ne2,
+    Op::BpPc(true), Op::BpPc(false), Op::BpReg(true), Op::BpReg(false), Op::BpMem(true), Op::BpMem(false), Op::Arm(0), Op::Arm(1), Op::Arm(3), Op::RunLimit(u64::MAX), Op::SetCount(u64::MAX - 1), Op::SetCount(0)];
 
 #[derive(Clone, Copy, Debug, PartialEq, Eq)]
 enum Pause { Halt, McrOff, Breakpoint, Tripwire, Unsuccessful }
@@ -95,6 +95,7 @@ fn apply(w: &mut World, op: Op) -> Result<(), (String, String)> {
         Op::BpPc(on) => { let b = Breakpoint::PC(p.bp); if on { w.a.sim.breakpoints.insert(b); } else { w.a.sim.breakpoints.remove(&b); } w.bps[0] = on; (Ok(()), Ok(())) }
         Op::BpReg(on) => { let b = Breakpoint::Reg { reg: r0, value: Comparator::Eq(2) }; if on { w.a.sim.breakpoints.insert(b); } else { w.a.sim.breakpoints.remove(&b); } w.bps[1] = on; (Ok(()), Ok(())) }
         Op::BpMem(on) => { let b = Breakpoint::Mem { addr: p.m, value: Comparator::Ne(0) }; if on { w.a.sim.breakpoints.insert(b); } else { w.a.sim.breakpoints.remove(&b); } w.bps[2] = on; (Ok(()), Ok(())) }
+        Op::SetCount(c) => { w.a.sim.instructions_run = c; w.twin.sim.instructions_run = c; (Ok(()), Ok(())) }
         Op::Arm(j) => { for s in [&w.a, &w.twin] { let mut st = s.dev.lock().unwrap(); st.clear_mcr_at = Some(st.poll + j); } (Ok(()), Ok(())) }
     };
     if let Err(e) = &exp { if e.starts_with("machinery") { return Err(("machinery:reference".into(), e.clone())); } }
@@ -115,11 +116,11 @@ fn apply(w: &mut World, op: Op) -> Result<(), (String, String)> {
     if w.a.sim.mcr().load(Ordering::Relaxed) != w.twin.sim.mcr().load(Ordering::Relaxed) { return Err((format!("mcr:{}", opname(op)), format!("{what}: MCR {} vs {}", w.a.sim.mcr().load(Ordering::Relaxed), w.twin.sim.mcr().load(Ordering::Relaxed)))); }
     Ok(())
 }
-fn opname(o: Op) -> &'static str { match o { Op::StepIn => "step_in", Op::StepOver => "step_over", Op::StepOut => "step_out", Op::RunLimit(_) => "run_with_limit", Op::Run => "run", Op::RunWhileR0Ne2 => "run_while", Op::Arm(_) => "arm", _ => "breakpoint" } }
+fn opname(o: Op) -> &'static str { match o { Op::StepIn => "step_in", Op::StepOver => "step_over", Op::StepOut => "step_out", Op::RunLimit(_) => "run_with_limit", Op::Run => "run", Op::RunWhileR0Ne2 => "run_while", Op::Arm(_) => "arm", Op::SetCount(_) => "set_count", _ => "breakpoint" } }
 
 fn fingerprint(w: &mut World) -> u64 {
     let s = &w.a.sim;
-    let mut h = (s.pc as u64) << 32 | (s.psr().get() as u64) << 16 | (s.instructions_run & 0xFFFF);
+    let mut h = mix((s.pc as u64) << 32 | (s.psr().get() as u64) << 16, s.instructions_run);
     for i in 0..8 { h = mix(h, s.reg_file[reg(i)].get() as u64 | (s.reg_file[reg(i)].is_init() as u64) << 16); }
     for a in (0x3000..0x3030u16).chain(0xFCF8..0xFD01).chain(0x2FF8..0x3000) { h = mix(h, s.mem[a].get() as u64); }
     h = mix(h, s.frame_stack.len() << 4 | (s.hit_halt() as u64) << 1 | s.hit_breakpoint() as u64);
@@ -140,7 +141,7 @@ fn visit(prog: usize, h: &[u16]) -> Visit {
 }
 
 pub fn run(ctx: &Ctx) -> Report {
-    let mut rep = Report::new("explicit-state BFS, for each of 4 programs (nested calls 2 deep + loop + PUTS trap + HALT; a store loop for memory breakpoints; the first program under real traps, halting through the OS's MCR write; a straight line), over histories of 18 operations: step_in, step_over, step_out, run_with_limit(0,1,2,5), run, run_while(R0 != 2), insert/remove a PC, a register (R0 == 2) and a memory (M != 0) breakpoint, arm an asynchronous MCR clear 0/1/3 polls ahead. After every operation the real simulator is compared with a twin that is driven ONLY by step_in under the documented stop rules (halt, error, breakpoint after an executed step, step limit, tripwire, frame depth, MCR cleared): result, registers, PC, PSR, saved SP, memory, frame depth, instruction count, output, hit_halt/hit_breakpoint, MCR. Any split of a run into segments therefore equals the unbroken run. non-trivial = states at depth >= 1");
+    let mut rep = Report::new("explicit-state BFS, for each of 4 programs (nested calls 2 deep + loop + PUTS trap + HALT; a store loop for memory breakpoints; the first program under real traps, halting through the OS's MCR write; a straight line), over histories of 21 operations: step_in, step_over, step_out, run_with_limit(0,1,2,5,u64::MAX), the host setting instructions_run to u64::MAX-1 or 0 (documented as resettable), run, run_while(R0 != 2), insert/remove a PC, a register (R0 == 2) and a memory (M != 0) breakpoint, arm an asynchronous MCR clear 0/1/3 polls ahead. After every operation the real simulator is compared with a twin that is driven ONLY by step_in under the documented stop rules (halt, error, breakpoint after an executed step, step limit, tripwire, frame depth, MCR cleared): result, registers, PC, PSR, saved SP, memory, frame depth, instruction count, output, hit_halt/hit_breakpoint, MCR. Any split of a run into segments therefore equals the unbroken run. non-trivial = states at depth >= 1");
     let depth = ctx.pick(5usize, 8usize);
     let mut total_states = 0u64; let mut total_tr = 0u64; let mut frontier_total = 0u64;
     for prog in 0..progs().len() {
